@@ -291,13 +291,55 @@ def capacity_violation(rec, items):
 
     if not free:
         return check(())
-    options = [pool_workers.get(it["pool"], []) for it in free]
-    if any(not o for o in options):
+    if any(not pool_workers.get(it["pool"]) for it in free):
         return "placement on a pool without workers"
-    first = None
-    for assign in itertools.islice(itertools.product(*options), 20000):
-        bad = check(assign)
-        if bad is None:
+    # pools are independent; inside a pool a depth-first assignment with pruning.  A search that runs out of budget is
+    # inconclusive and never a violation.
+    budget = [200000]
+
+    def usage_ok(load, w):
+        cap = caps.get(w, {})
+        for t in times:
+            use = {}
+            for it in load:
+                if it["start"] <= t < it["end"]:
+                    for r, q in it["demand"].items():
+                        use[r] = use.get(r, 0) + q
+            if any(q > cap.get(r, 0) for r, q in use.items()):
+                return False
+        return True
+
+    for pid in sorted({it["pool"] for it in free}):
+        ws = pool_workers[pid]
+        load = {w: [it for it in fixed if it["worker"] == w] for w in ws}
+        mine = sorted((it for it in free if it["pool"] == pid), key=lambda it: -sum(it["demand"].values()))
+
+        def dfs(k):
+            if k == len(mine):
+                return True
+            budget[0] -= 1
+            if budget[0] < 0:
+                return None
+            tried = set()
+            for w in ws:
+                sig = (tuple(sorted(caps.get(w, {}).items())), tuple(id(x) for x in load[w]))
+                if sig in tried:
+                    continue  # an identical empty/equal worker was already tried
+                tried.add(sig)
+                load[w].append(mine[k])
+                if usage_ok(load[w], w):
+                    r = dfs(k + 1)
+                    if r is not False:
+                        load[w].pop()
+                        return r
+                load[w].pop()
+            return False
+
+        r = dfs(0)
+        if r is None:
+            rec.setdefault("inconclusive", []).append("capacity_assignment_search_budget")
             return None
-        first = first or bad
-    return first
+        if r is False:
+            # report with the greedy first-fit picture for readability
+            return check(tuple(pool_workers[it["pool"]][0] for it in free)) or f"no assignment of the placements on pool {pid} to its workers respects their capacity"
+    return None
